@@ -52,6 +52,7 @@ def run(ctx):
     n = ctx.budget(50, 2500)
     srcs = list(TEMPLATES) + FC.gen_sources(ctx, n, lambda i: Opts(sugar=(i % 5 == 0), max_bin=5, max_stmts=3,
                                                                     whole_rhs_cast=False, consts=(i % 2 == 0)))
+    srcs += FC.failure_patterns(1 if ctx.tier == 'thorough' else 4)
     FC.run_functions(ctx, srcs, [(False, False), (True, False)], on_result=on_result,
                      classify=lambda v, *a: {'kind': v['kind']})
     for (src, strict), d in verdicts.items():
